@@ -770,6 +770,69 @@ def c01_commit_order(env, ob):
     return agg
 
 
+@obligation(id="C01.checkpoint_order", also="C13,C09", funcs="<Pager as Write>::flush",
+            bounds="every path of the checkpoint (dirty-page loop unrolled once); WAL / file calls uninterpreted",
+            native="c01_crash_after_checkpoint_reopens")
+def c01_checkpoint_order(env, ob):
+    """Checkpoint = force the log, write the dirty pages and the header, flush the data file, only then truncate the log,
+    and finally force the (now empty) log so that the log file on disk is a valid empty log and not a zero-length file."""
+    ctx, f, args, res = explore(env, "io/pager.rs", "flush", sig=r"_1: &mut Pager\) -> Result<\(\), std::io::Error>", loop_bound=1)
+
+    def bad(path, rv):
+        if path.panics or rv is None:
+            return None
+        ok = ret_is_ok(rv)
+        wf = idx(path, r"<WriteAheadLog as std::io::Write>::flush$")
+        tr = idx(path, r"WriteAheadLog.*::truncate$")
+        data = idx(path, r"write_block|with_bytes_mut")
+        hdr = idx(path, r"sync_header$")
+        ff = idx(path, r"<DBFile as std::io::Write>::flush$")
+        if not tr:
+            return ("checkpoint_never_truncates_the_log", ok)
+        if not wf or wf[0] > min(data + hdr + tr):
+            return ("data_pages_written_before_the_log_is_forced", ok)
+        if not hdr or not ff or max(hdr[0], ff[0]) > tr[0] or (data and max(data) > tr[0]):
+            return ("log_truncated_before_pages_and_header_are_on_disk", ok)
+        if not [i for i in wf if i > tr[-1]]:
+            return ("truncated_log_not_forced:log_file_left_without_header", ok)
+        return None
+    return trace_obligation(env, ob, ctx, res, bad, "checkpoint steps out of order", cuts_ok=True)
+
+
+@obligation(id="C01.redo_applies_committed_rows", also="C02", funcs="WalRecuperator::redo_insert,WalRecuperator::run_redo",
+            bounds="every path of redo_insert, and of run_redo for one transaction with one record (loops unrolled once); "
+                   "executor calls uninterpreted", native="c01_committed_inserts_survive_crash")
+def c01_redo_insert(env, ob):
+    """A transaction in the redo set is committed.  Redo of one of its INSERT records either re-inserts the logged row or
+    fails - it never returns Ok without having applied it (in particular it is not filtered by snapshot visibility), and
+    run_redo hands every logged insert/update/delete of a redo transaction to its redo routine."""
+    ctx, f, args, res = explore(env, "io/recovery.rs", "redo_insert", loop_bound=1)
+
+    def bad(path, rv):
+        if path.panics or rv is None:
+            return None
+        if not idx(path, r"DmlExecutor::insert$"):
+            return ("redo_insert_returns_ok_without_inserting", ret_is_ok(rv))
+        return None
+    a = trace_obligation(env, ob, ctx, res, bad, "redo_insert skips the logged row", cuts_ok=True)
+    ctx2, f2, args2, res2 = explore(env, "io/recovery.rs", "run_redo", loop_bound=1)
+
+    def bad2(path, rv):
+        if path.panics or rv is None:
+            return None
+        # every record kind that was looked up and found (HashMap::get returned Some) is handed to its redo routine
+        for kind in ("insert", "update", "delete"):
+            gets = [e for e in path.events if re.search(r"HashMap::<.*>::get", e["callee"]) and re.search(kind + r"_ops", " ".join(e["argdesc"]))]
+            for g in gets:
+                r = g["ret"]
+                some = f"(= {r.get_disc().term} {bvconst(1, 64)})" if isinstance(r, Agg) else None
+                if some and some in path.pc and not idx(path, r"redo_" + kind + r"$"):
+                    return (f"logged_{kind}_of_a_committed_transaction_not_redone", ret_is_ok(rv))
+        return None
+    b = trace_obligation(env, ob, ctx2, res2, bad2, "run_redo does not apply a logged operation", cuts_ok=True)
+    return merge(a, b)
+
+
 @obligation(id="C03.commit_only_on_success", also="C02",
             funcs="Database::execute::{closure#0},Database::execute_batch::{closure#1}",
             bounds="every path of the autocommit/batch worker closures; callees uninterpreted")
@@ -1427,9 +1490,9 @@ def c07_index_insert(env, ob):
             return None
         if _evs(path, r"Btree::<.*>::(insert|update|upsert)$"):
             return None                                              # the entry was (re)written
-        got = _evs(path, r"get_tuple_at_unchecked$|with_cell_at")
-        if not got:
-            return None                                              # NotFound handled by the write above; nothing read
+        # no write on a successful path = "the found entry is live, keep it": that needs both liveness tests
+        if not _evs(path, r"Tuple::is_deleted$|parse_for_snapshot$"):
+            return ("found_entry_kept_without_checking_deletion@insert", ret_is_ok(rv))
         creator_checked = _evs(path, r"is_transaction_aborted$|parse_for_snapshot$|is_committed_before_snapshot$|is_valid_for_snapshot$|is_visible")
         if not creator_checked:
             return ("found_entry_kept_without_checking_its_creator_outcome@insert", ret_is_ok(rv))
